@@ -4,14 +4,18 @@
 // `crate::event::verif_event`.
 //
 // A case (lean/Rbgp/Fib/Codec.lean syntax) is a history of route insert / replace /
-// remove / peer drop / GR stale + purge / soft reset IN / import-policy change /
-// next-hop reachability report.  It is run against a real `TableManager` (2 shards)
-// with a `KernelHandle` installed whose request stream is read back through the
-// cfg-guarded hook `rustybgp_kernel::verif`.  One observation line per case:
+// remove / peer drop (both entry points) / GR stale + purge / LLGR stale + purge / soft
+// reset IN / import-policy change / next-hop reachability report / end of deferral.  It is
+// run against a real `TableManager` (2 shards) with a `KernelHandle` installed whose request
+// stream is read back through the cfg-guarded hook `rustybgp_kernel::verif`.  One
+// observation line per case:
 //   (trace (step (fib (<table> <fam> <id> (<nh>...))...) (nht (r <a>)|(u <a>)...)
-//                (rib (d <fam> <id> (p <src> <pid> <nh> <flt> <stale> <lp> <eb> <cl> <rid> (<rt>...))...)...))...)
-// `(svc ...)` cases drive the real `run_service_loop` (refcount map `watched`) with
-// register/unregister requests only and observe the NexthopUpdate emissions.
+//                (rib (d <fam> <id> (p <src> <pid> <nh> <flt> <stale> <llgr> <lp> <asl> <org> <eb> <cl> <rid> (<rt>...))...)...))...
+//          [(feed (<addr> <count>)...)])
+// With `(feed t)` every register/unregister request of the run is afterwards sent, in the
+// order the TableManager sent it, to the real `run_service_loop`, whose final count per
+// address is measured.  `(svc ...)` cases drive the real `run_service_loop` with
+// register/unregister requests and injected route events and observe the emissions.
 #![allow(dead_code)]
 
 use std::net::{IpAddr, Ipv4Addr, Ipv6Addr};
@@ -29,7 +33,9 @@ use sexp::Term;
 
 const SRC_LOCAL: u64 = 100;
 const SRC_KERNEL: u64 = 101;
-const FAMS: [Family; 3] = [Family::IPV4, Family::IPV6, Family::IPV4_VPN];
+const FAMS: [Family; 4] = [Family::IPV4, Family::IPV6, Family::IPV4_VPN, Family::IPV6_VPN];
+const LLGR_STALE: u32 = 0xffff_0006;
+const NO_LLGR: u32 = 0xffff_0007;
 
 // ---------------------------------------------------------------- encodings
 fn addr_of(a: u64) -> Option<IpAddr> {
@@ -42,21 +48,28 @@ fn addr_of(a: u64) -> Option<IpAddr> {
     }
 }
 fn addr_id(a: &IpAddr) -> u64 {
-    match a {
-        IpAddr::V4(v) => {
-            let o = v.octets();
-            if o[0] == 192 && o[1] == 0 && o[2] == 2 { o[3] as u64 } else { 999 }
-        }
-        IpAddr::V6(v) => {
-            let s = v.segments();
-            if s[0] == 0x2001 && s[1] == 0xdb8 && s[2] == 0xffff { 100 + s[7] as u64 } else { 999 }
+    for i in 0..200 {
+        if addr_of(i).as_ref() == Some(a) {
+            return i;
         }
     }
+    999
 }
-fn nexthop_of(a: u64) -> Option<bgp::Nexthop> {
+fn nexthop_of(a: u64, ll: bool) -> Option<bgp::Nexthop> {
     Some(match addr_of(a)? {
-        IpAddr::V4(v) => bgp::Nexthop::V4(v),
-        IpAddr::V6(v) => bgp::Nexthop::V6(v),
+        IpAddr::V4(v) => {
+            if ll {
+                return None;
+            }
+            bgp::Nexthop::V4(v)
+        }
+        IpAddr::V6(v) => {
+            if ll {
+                bgp::Nexthop::V6LinkLocal(v, Ipv6Addr::new(0xfe80, 0, 0, 0, 0, 0, 0, 1))
+            } else {
+                bgp::Nexthop::V6(v)
+            }
+        }
     })
 }
 fn family_of(f: u64) -> Option<Family> {
@@ -64,6 +77,7 @@ fn family_of(f: u64) -> Option<Family> {
         0 => Some(Family::IPV4),
         1 => Some(Family::IPV6),
         2 => Some(Family::IPV4_VPN),
+        3 => Some(Family::IPV6_VPN),
         _ => None,
     }
 }
@@ -72,55 +86,109 @@ fn nlri_of(f: u64, id: u64) -> Option<packet::Nlri> {
         return None;
     }
     let v4 = bgp::Ipv4Net { addr: Ipv4Addr::new(10, id as u8, 0, 0), mask: 16 };
+    let v6 = bgp::Ipv6Net { addr: Ipv6Addr::new(0x2001, 0xdb8, id as u16, 0, 0, 0, 0, 0), mask: 48 };
+    let labels = packet::mpls::MplsLabelStack::new(vec![packet::mpls::MplsLabel::new(100 + id as u32)]);
     match f {
         0 => Some(packet::Nlri::V4(v4)),
-        1 => Some(packet::Nlri::V6(bgp::Ipv6Net {
-            addr: Ipv6Addr::new(0x2001, 0xdb8, id as u16, 0, 0, 0, 0, 0),
-            mask: 48,
-        })),
+        1 => Some(packet::Nlri::V6(v6)),
         2 => Some(packet::Nlri::VpnV4(packet::vpn::VpnV4Nlri {
-            labels: packet::mpls::MplsLabelStack::new(vec![packet::mpls::MplsLabel::new(100 + id as u32)]),
+            labels,
             rd: packet::rd::RouteDistinguisher::TwoOctetAs { admin: 65000, assigned: id as u32 + 1 },
             prefix: v4,
+        })),
+        3 => Some(packet::Nlri::VpnV6(packet::vpn::VpnV6Nlri {
+            labels,
+            rd: packet::rd::RouteDistinguisher::FourOctetAs { admin: 4200000000, assigned: id as u16 + 1 },
+            prefix: v6,
         })),
         _ => None,
     }
 }
+/// (family tag, index) of an NLRI; (9, 0) unless it is exactly one the harness builds.
 fn nlri_id(n: &packet::Nlri) -> (u64, u64) {
-    match n {
+    let (f, id) = match n {
         packet::Nlri::V4(n) => (0, n.addr.octets()[1] as u64),
         packet::Nlri::V6(n) => (1, n.addr.segments()[2] as u64),
         packet::Nlri::VpnV4(n) => (2, n.prefix.addr.octets()[1] as u64),
-        _ => (9, 0),
+        packet::Nlri::VpnV6(n) => (3, n.prefix.addr.segments()[2] as u64),
+        _ => return (9, 0),
+    };
+    if nlri_of(f, id).as_ref() == Some(n) { (f, id) } else { (9, 0) }
+}
+/// Route target `r`: the three RT formats in turn, so that type and high-order bytes matter.
+fn rt_bytes(r: u64) -> [u8; 8] {
+    let (hi, lo) = ((r >> 8) as u8, r as u8);
+    match r % 3 {
+        0 => [0x00, 0x02, 0xfd, 0xe8, 0, 0, hi, lo],
+        1 => [0x02, 0x02, 0xfa, 0x56, 0xea, 0x00, hi, lo],
+        _ => [0x01, 0x02, 192, 0, 2, 1, hi, lo],
     }
 }
-fn rt_bytes(r: u64) -> [u8; 8] {
-    [0x00, 0x02, 0xfd, 0xe8, 0, 0, (r >> 8) as u8, r as u8]
+fn rt_id(b: &[u8]) -> u64 {
+    let r = ((b[6] as u64) << 8) | b[7] as u64;
+    if rt_bytes(r) == b { r } else { 9999 }
 }
 fn peer_addr(k: u64) -> IpAddr {
     IpAddr::V4(Ipv4Addr::new(10, 0, 0, (k + 1) as u8))
 }
 
-fn build_attrs(lp: u64, cl: u64, rts: &[u64]) -> Arc<Vec<packet::Attribute>> {
+struct Attrs {
+    lp: u64,
+    cl: u64,
+    rts: Vec<u64>,
+    asl: u64,
+    org: u64,
+    lc: bool,
+    nollgr: bool,
+}
+
+fn build_attrs(a: &Attrs) -> Arc<Vec<packet::Attribute>> {
     let mut v = Vec::new();
-    if lp != 100 {
-        v.push(packet::Attribute::new_with_value(packet::Attribute::LOCAL_PREF, lp as u32).unwrap());
+    v.push(packet::Attribute::new_with_value(packet::Attribute::ORIGIN, a.org as u32).unwrap());
+    if a.asl > 0 {
+        let mut b = vec![packet::Attribute::AS_PATH_TYPE_SEQ, a.asl as u8];
+        for i in 0..a.asl {
+            b.extend_from_slice(&(64500 + i as u32).to_be_bytes());
+        }
+        v.push(packet::Attribute::new_with_bin(packet::Attribute::AS_PATH, b).unwrap());
     }
-    if cl > 0 {
+    if a.lp != 100 {
+        v.push(packet::Attribute::new_with_value(packet::Attribute::LOCAL_PREF, a.lp as u32).unwrap());
+    }
+    if a.lc || a.nollgr {
         let mut b = Vec::new();
-        for i in 0..cl {
+        b.extend_from_slice(&0xfde8_0001u32.to_be_bytes());
+        if a.lc {
+            b.extend_from_slice(&LLGR_STALE.to_be_bytes());
+        }
+        if a.nollgr {
+            b.extend_from_slice(&NO_LLGR.to_be_bytes());
+        }
+        v.push(packet::Attribute::new_with_bin(packet::Attribute::COMMUNITY, b).unwrap());
+    }
+    if a.cl > 0 {
+        let mut b = Vec::new();
+        for i in 0..a.cl {
             b.extend_from_slice(&[1, 1, 1, i as u8 + 1]);
         }
         v.push(packet::Attribute::new_with_bin(packet::Attribute::CLUSTER_LIST, b).unwrap());
     }
-    if !rts.is_empty() {
+    if !a.rts.is_empty() {
         let mut b = Vec::new();
-        for r in rts {
+        for r in &a.rts {
             b.extend_from_slice(&rt_bytes(*r));
         }
         v.push(packet::Attribute::new_with_bin(packet::Attribute::EXTENDED_COMMUNITY, b).unwrap());
     }
     Arc::new(v)
+}
+
+fn has_community(attrs: &[packet::Attribute], c: u32) -> bool {
+    attrs
+        .iter()
+        .find(|a| a.code() == packet::Attribute::COMMUNITY)
+        .and_then(|a| a.binary())
+        .is_some_and(|b| b.chunks_exact(4).any(|x| u32::from_be_bytes([x[0], x[1], x[2], x[3]]) == c))
 }
 
 // ---------------------------------------------------------------- case
@@ -204,19 +272,26 @@ fn build_policy(rules: &[Rule]) -> Option<Arc<table::PolicyAssignment>> {
 struct World {
     tables: TableManager,
     rx: kernel::verif::RequestReceiver,
-    rids: Vec<u32>,
+    peers: Vec<(u32, u64)>,
     cur: Vec<Arc<table::Source>>,
+    /// every register (true) / unregister (false) request in the order sent
+    sent: Vec<(bool, u64)>,
 }
 
 impl World {
-    fn new_source(k: usize, rid: u32) -> Arc<table::Source> {
+    fn new_source(k: usize, peer: (u32, u64)) -> Arc<table::Source> {
+        let (role, asn) = match peer.1 {
+            0 => (table::PeerRole::Ebgp, 65010 + k as u32),
+            1 => (table::PeerRole::Ibgp, 65001),
+            _ => (table::PeerRole::IbgpRrClient, 65001),
+        };
         Arc::new(table::Source::new(
             peer_addr(k as u64),
             IpAddr::V4(Ipv4Addr::new(10, 0, 0, 254)),
-            65010 + k as u32,
+            asn,
             65001,
-            Ipv4Addr::from(rid),
-            table::PeerRole::Ebgp,
+            Ipv4Addr::from(peer.0),
+            role,
         ))
     }
 
@@ -227,23 +302,30 @@ impl World {
             match r {
                 kernel::verif::RequestMirror::Apply(c) => {
                     let (f, id) = nlri_id(&c.net);
-                    fib.push((
-                        c.table_id.unwrap_or(0) as u64,
-                        f,
-                        id,
-                        c.nexthops.iter().map(|n| addr_id(&n.addr())).collect(),
-                    ));
+                    // main table = 0; an explicit table id 0 must not be confused with it
+                    let t = match c.table_id {
+                        None => 0,
+                        Some(0) => 4294967296,
+                        Some(t) => t as u64,
+                    };
+                    fib.push((t, f, id, c.nexthops.iter().map(|n| addr_id(&n.addr())).collect()));
                 }
-                kernel::verif::RequestMirror::RegisterNexthop(a) => nht.push((addr_id(&a), 0)),
-                kernel::verif::RequestMirror::UnregisterNexthop(a) => nht.push((addr_id(&a), 1)),
+                kernel::verif::RequestMirror::RegisterNexthop(a) => {
+                    nht.push((addr_id(&a), 0));
+                    self.sent.push((true, addr_id(&a)));
+                }
+                kernel::verif::RequestMirror::UnregisterNexthop(a) => {
+                    nht.push((addr_id(&a), 1));
+                    self.sent.push((false, addr_id(&a)));
+                }
                 kernel::verif::RequestMirror::CreateVrf { .. } | kernel::verif::RequestMirror::DeleteVrf { .. } => {}
             }
         }
         // canonical order (hash-map iteration order of shards/destinations/VRFs is not modelled):
-        // FIB requests stably by (table, prefix); tracking requests: registers (by address) before
-        // unregisters (by address)
+        // FIB requests stably by (table, prefix); tracking requests stably by address, so that the
+        // requests for one address keep the order in which they were sent
         fib.sort_by(|a, b| (a.0, a.1, a.2).cmp(&(b.0, b.1, b.2)));
-        nht.sort_by(|a, b| (a.1, a.0).cmp(&(b.1, b.0)));
+        nht.sort_by(|a, b| a.0.cmp(&b.0));
         (fib, nht)
     }
 
@@ -271,26 +353,22 @@ impl World {
                             .lookup_nexthop(p.source.remote_addr, fam, &d.net, p.remote_path_id)
                             .map(|n| addr_id(&n.addr()))
                             .unwrap_or(998);
-                        let lp = p
-                            .attr
-                            .iter()
-                            .find(|a| a.code() == packet::Attribute::LOCAL_PREF)
-                            .and_then(|a| a.value())
-                            .unwrap_or(100);
-                        let cl = p
-                            .attr
-                            .iter()
-                            .find(|a| a.code() == packet::Attribute::CLUSTER_LIST)
+                        let find = |code: u8| p.attr.iter().find(|a| a.code() == code);
+                        let lp = find(packet::Attribute::LOCAL_PREF).and_then(|a| a.value()).unwrap_or(100);
+                        let org = find(packet::Attribute::ORIGIN).and_then(|a| a.value()).unwrap_or(2);
+                        let asl = find(packet::Attribute::AS_PATH).map(|a| a.as_path_length()).unwrap_or(0);
+                        let cl = find(packet::Attribute::CLUSTER_LIST)
                             .and_then(|a| a.binary())
                             .map(|b| b.len() / 4)
                             .unwrap_or(0);
+                        let llgr = p.source.is_llgr_stale() || has_community(&p.attr, LLGR_STALE);
                         let mut rts = Vec::new();
                         for a in p.attr.iter() {
                             if a.code() == packet::Attribute::EXTENDED_COMMUNITY
                                 && let Some(b) = a.binary()
                             {
                                 for c in b.chunks_exact(8) {
-                                    rts.push(Term::nat(((c[6] as u32) << 8) | c[7] as u32));
+                                    rts.push(Term::nat(rt_id(c)));
                                 }
                             }
                         }
@@ -303,7 +381,10 @@ impl World {
                                 Term::nat(nh),
                                 Term::boolean(p.filtered),
                                 Term::boolean(p.stale),
+                                Term::boolean(llgr),
                                 Term::nat(lp),
+                                Term::nat(asl as u64),
+                                Term::nat(org),
                                 Term::boolean(eb),
                                 Term::nat(cl as u64),
                                 Term::nat(p.source.router_id),
@@ -329,21 +410,42 @@ impl World {
         }
     }
 
+    fn peer_arg(&self, t: &Term, name: &str) -> Option<usize> {
+        let [k] = t.tagged(name)? else { return None };
+        let k = k.as_u64()? as usize;
+        if k >= self.cur.len() { None } else { Some(k) }
+    }
+
+    fn renew(&mut self, k: usize) {
+        self.cur[k] = World::new_source(k, self.peers[k]);
+    }
+
     /// Returns None for an ill-formed op.
     fn op(&mut self, t: &Term) -> Option<()> {
         match t.head()? {
             "ins" => {
-                let [src, f, id, pid, nh, lp, cl, rts] = t.tagged("ins")? else { return None };
-                let (src, f, id, pid, nh, lp, cl) =
-                    (src.as_u64()?, f.as_u64()?, id.as_u64()?, pid.as_u64()?, nh.as_u64()?, lp.as_u64()?, cl.as_u64()?);
-                let rts = nats(rts.as_list()?)?;
-                if lp > 1000 || cl > 1 || pid > 1000 || rts.iter().any(|r| *r > 1000) {
+                let [src, f, id, pid, nh, lp, cl, rts, asl, org, fl] = t.tagged("ins")? else { return None };
+                let (src, f, id, pid, nh) = (src.as_u64()?, f.as_u64()?, id.as_u64()?, pid.as_u64()?, nh.as_u64()?);
+                let fl = fl.as_u64()?;
+                let a = Attrs {
+                    lp: lp.as_u64()?,
+                    cl: cl.as_u64()?,
+                    rts: nats(rts.as_list()?)?,
+                    asl: asl.as_u64()?,
+                    org: org.as_u64()?,
+                    lc: fl & 1 != 0,
+                    nollgr: fl & 2 != 0,
+                };
+                let ll = fl & 4 != 0;
+                if fl >= 8 || a.lp > 1000 || a.cl > 1 || pid > 1000 || a.asl > 3 || a.org > 2
+                    || a.rts.iter().any(|r| *r > 1000) || (ll && nh < 100)
+                {
                     return None;
                 }
                 let source = self.source_for(src)?;
                 let fam = family_of(f)?;
                 let net = packet::PathNlri { nlri: nlri_of(f, id)?, path_id: pid as u32 };
-                self.tables.insert_route(source, fam, net, Some(nexthop_of(nh)?), build_attrs(lp, cl, &rts), None, 0);
+                self.tables.insert_route(source, fam, net, Some(nexthop_of(nh, ll)?), build_attrs(&a), None, 0);
             }
             "rm" => {
                 let [src, f, id, pid] = t.tagged("rm")? else { return None };
@@ -357,37 +459,34 @@ impl World {
                 self.tables.remove_route(source, fam, net, None, 0);
             }
             "down" => {
-                let [k] = t.tagged("down")? else { return None };
-                let k = k.as_u64()? as usize;
-                if k >= self.cur.len() {
-                    return None;
-                }
+                let k = self.peer_arg(t, "down")?;
                 self.tables.unregister_peer(peer_addr(k as u64), &FAMS, &[]);
-                self.cur[k] = World::new_source(k, self.rids[k]);
+                self.renew(k);
+            }
+            "drop" => {
+                let k = self.peer_arg(t, "drop")?;
+                self.tables.drop_families(peer_addr(k as u64), &FAMS);
             }
             "stale" => {
-                let [k] = t.tagged("stale")? else { return None };
-                let k = k.as_u64()? as usize;
-                if k >= self.cur.len() {
-                    return None;
-                }
+                let k = self.peer_arg(t, "stale")?;
                 self.tables.unregister_peer(peer_addr(k as u64), &[], &FAMS);
-                self.cur[k] = World::new_source(k, self.rids[k]);
+                self.renew(k);
             }
             "purge" => {
-                let [k] = t.tagged("purge")? else { return None };
-                let k = k.as_u64()? as usize;
-                if k >= self.cur.len() {
-                    return None;
-                }
+                let k = self.peer_arg(t, "purge")?;
                 self.tables.drop_stale_families(peer_addr(k as u64), &FAMS);
             }
+            "llgr" => {
+                let k = self.peer_arg(t, "llgr")?;
+                self.tables.mark_llgr_stale(peer_addr(k as u64), &FAMS);
+                self.renew(k);
+            }
+            "lpurge" => {
+                let k = self.peer_arg(t, "lpurge")?;
+                self.tables.drop_llgr_stale_families(peer_addr(k as u64), &FAMS);
+            }
             "soft" => {
-                let [k] = t.tagged("soft")? else { return None };
-                let k = k.as_u64()? as usize;
-                if k >= self.cur.len() {
-                    return None;
-                }
+                let k = self.peer_arg(t, "soft")?;
                 self.tables.soft_reset_in(peer_addr(k as u64));
             }
             "pol" => {
@@ -403,10 +502,18 @@ impl World {
                 let [a, r] = t.tagged("nh")? else { return None };
                 self.tables.update_nexthop_validity(addr_of(a.as_u64()?)?, r.as_bool()?);
             }
+            "undefer" => {
+                let [f] = t.tagged("undefer")? else { return None };
+                self.tables.end_deferral_families(&[family_of(f.as_u64()?)?]);
+            }
             _ => return None,
         }
         Some(())
     }
+}
+
+fn vrfs_distinct(tids: &[u64]) -> bool {
+    tids.iter().enumerate().all(|(i, t)| *t == 0 || !tids[i + 1..].contains(t))
 }
 
 fn run_case(line: &str) -> Option<String> {
@@ -414,18 +521,37 @@ fn run_case(line: &str) -> Option<String> {
     if let Some(reqs) = t.tagged("svc") {
         return run_svc(reqs);
     }
-    let [peers, vrfs, ops] = t.tagged("case")? else { return None };
-    let rids = nats(peers.tagged("peers")?)?;
-    if rids.is_empty() || rids.len() > 8 || rids.iter().any(|r| *r > u32::MAX as u64) {
+    let [peers, vrfs, opts, ops] = t.tagged("case")? else { return None };
+    let mut plist = Vec::new();
+    for p in peers.tagged("peers")? {
+        let [rid, role] = p.as_list()? else { return None };
+        let (rid, role) = (rid.as_u64()?, role.as_u64()?);
+        if rid > u32::MAX as u64 || role > 2 {
+            return None;
+        }
+        plist.push((rid as u32, role));
+    }
+    if plist.is_empty() || plist.len() > 8 {
         return None;
     }
-    let tables = TableManager::new(2);
-    for (i, v) in vrfs.tagged("vrfs")?.iter().enumerate() {
+    let [defer, feed] = opts.tagged("opts")? else { return None };
+    let defer = nats(defer.tagged("defer")?)?;
+    let [feed] = feed.tagged("feed")? else { return None };
+    let feed = feed.as_bool()?;
+    let mut vlist = Vec::new();
+    for v in vrfs.tagged("vrfs")? {
         let l = nats(v.as_list()?)?;
         let (tid, rts) = l.split_first()?;
         if *tid > 100000 || rts.iter().any(|r| *r > 1000) {
             return None;
         }
+        vlist.push((*tid, rts.to_vec()));
+    }
+    if !vrfs_distinct(&vlist.iter().map(|v| v.0).collect::<Vec<_>>()) || defer.iter().any(|f| *f > 3) {
+        return None;
+    }
+    let tables = TableManager::new(2);
+    for (i, (tid, rts)) in vlist.iter().enumerate() {
         tables
             .add_vrf(
                 format!("v{i}"),
@@ -438,8 +564,10 @@ fn run_case(line: &str) -> Option<String> {
     }
     let (handle, rx) = kernel::verif::handle_with_receiver();
     tables.kernel_handle.store(Some(Arc::new(handle)));
-    let cur = rids.iter().enumerate().map(|(k, r)| World::new_source(k, *r as u32)).collect();
-    let mut w = World { tables, rx, rids: rids.iter().map(|r| *r as u32).collect(), cur };
+    let fams: Vec<Family> = defer.iter().filter_map(|f| family_of(*f)).collect();
+    tables.start_deferral_families(&fams);
+    let cur = plist.iter().enumerate().map(|(k, p)| World::new_source(k, *p)).collect();
+    let mut w = World { tables, rx, peers: plist, cur, sent: Vec::new() };
     let mut steps = Vec::new();
     for o in ops.tagged("ops")? {
         w.op(o)?;
@@ -470,104 +598,190 @@ fn run_case(line: &str) -> Option<String> {
             ],
         ));
     }
+    if feed {
+        steps.push(RT.with(|rt| rt.block_on(feed_async(w.sent.clone()))));
+    }
     Some(Term::tag("trace", steps).to_string())
 }
 
 // ---------------------------------------------------------------- service loop
-// Drives the real `run_service_loop` (kernel/src/lib.rs) with register/unregister requests.
-// Each request is followed by register+unregister of a sentinel address that is never
-// otherwise used: the sentinel's registration always finds count 0 and therefore always
-// emits a NexthopUpdate, which marks the end of the events caused by the request.
+// Drives the real `run_service_loop` (kernel/src/lib.rs).  Each request is followed by
+// register+unregister of a sentinel address that is never otherwise used: the sentinel's
+// registration always finds count 0 and therefore always emits a NexthopUpdate, which marks
+// the end of the events caused by the request.  The netlink socket is used only by
+// `lookup_route` (read-only); without one the observation says so and the check fails loudly.
 thread_local! {
     static RT: tokio::runtime::Runtime =
         tokio::runtime::Builder::new_current_thread().enable_all().build().unwrap();
 }
 
-fn run_svc(reqs: &[Term]) -> Option<String> {
-    let mut parsed = Vec::new();
-    for r in reqs {
-        let [k, a] = r.as_list()? else { return None };
-        let a = a.as_u64()?;
-        if a >= 90 {
-            return None;
-        }
-        match k.as_atom()? {
-            "r" => parsed.push((true, a)),
-            "u" => parsed.push((false, a)),
-            _ => return None,
-        }
-    }
-    Some(RT.with(|rt| rt.block_on(svc_async(parsed))))
-}
-
 type EvRx = tokio::sync::mpsc::UnboundedReceiver<kernel::KernelEvent>;
+type EvTx = tokio::sync::mpsc::UnboundedSender<kernel::KernelEvent>;
 
-/// Send one request followed by the sentinel pair; returns whether the request itself
-/// caused a NexthopUpdate emission (None on timeout).
-async fn svc_send(handle: &kernel::KernelHandle, erx: &mut EvRx, reg: bool, a: u64) -> Option<bool> {
-    let addr = addr_of(a).unwrap();
-    let sentinel = addr_of(99).unwrap();
-    if reg {
-        handle.register_nexthop(addr);
-    } else {
-        handle.unregister_nexthop(addr);
+#[derive(Clone, Copy)]
+enum SvcReq {
+    Reg(u64),
+    Unreg(u64),
+    RouteEvent,
+}
+
+struct Svc {
+    handle: kernel::KernelHandle,
+    inject: EvTx,
+    erx: EvRx,
+    task: tokio::task::JoinHandle<()>,
+}
+
+impl Svc {
+    fn start() -> Option<Svc> {
+        let (etx, erx) = tokio::sync::mpsc::unbounded_channel();
+        let (handle, inject, task) = kernel::verif::spawn_service_loop(etx).ok()?;
+        Some(Svc { handle, inject, erx, task })
     }
-    handle.register_nexthop(sentinel);
-    handle.unregister_nexthop(sentinel);
-    let mut emitted = false;
-    loop {
-        let ev = tokio::time::timeout(std::time::Duration::from_secs(5), erx.recv()).await.ok()??;
-        if let kernel::KernelEvent::NexthopUpdate { addr: e, .. } = ev {
-            if e == sentinel {
-                return Some(emitted);
+
+    /// Send one request followed by the sentinel pair; returns whether the request itself
+    /// caused a NexthopUpdate emission (None on timeout).
+    async fn send(&mut self, r: SvcReq) -> Option<bool> {
+        let sentinel = addr_of(99).unwrap();
+        match r {
+            SvcReq::Reg(a) => self.handle.register_nexthop(addr_of(a).unwrap()),
+            SvcReq::Unreg(a) => self.handle.unregister_nexthop(addr_of(a).unwrap()),
+            SvcReq::RouteEvent => {
+                // a route of another protocol appeared: every watched address is looked up again
+                let _ = self.inject.send(kernel::KernelEvent::Route(kernel::KernelRouteEvent::Add(
+                    kernel::KernelRoute {
+                        dst: IpAddr::V4(Ipv4Addr::new(198, 51, 100, 0)),
+                        prefix_len: 24,
+                        nexthop: None,
+                        metric: 0,
+                        protocol: kernel::Protocol::Static,
+                    },
+                )));
+                // the event arrives on another channel than the requests: let the loop take it
+                // before the sentinel is queued
+                tokio::time::sleep(std::time::Duration::from_millis(15)).await;
             }
-            emitted = true;
+        }
+        self.handle.register_nexthop(sentinel);
+        self.handle.unregister_nexthop(sentinel);
+        let mut emitted = false;
+        loop {
+            let ev = tokio::time::timeout(std::time::Duration::from_secs(5), self.erx.recv()).await.ok()??;
+            if let kernel::KernelEvent::NexthopUpdate { addr: e, .. } = ev {
+                if e == sentinel {
+                    return Some(emitted);
+                }
+                emitted = true;
+            }
         }
     }
-}
 
-async fn svc_async(parsed: Vec<(bool, u64)>) -> String {
-    let (etx, mut erx) = tokio::sync::mpsc::unbounded_channel();
-    let (handle, task) = match kernel::verif::spawn_service_loop(etx) {
-        Ok(x) => x,
-        Err(_) => return "(svc-no-netlink)".to_string(),
-    };
-    let r = svc_body(&handle, &mut erx, parsed).await;
-    task.abort();
-    r.unwrap_or_else(|| "(svc-timeout)".to_string())
-}
-
-async fn svc_body(handle: &kernel::KernelHandle, erx: &mut EvRx, parsed: Vec<(bool, u64)>) -> Option<String> {
-    let mut emits = Vec::new();
-    for (reg, a) in parsed.iter().copied() {
-        emits.push(Term::boolean(svc_send(handle, erx, reg, a).await?));
-    }
-    // measure the final count c of every address that occurred:
-    //   register            -> emits iff c = 0; the count is now n = c + 1
-    //   [unregister,register] emits iff n <= 1; otherwise unregister once more (n -= 1) and repeat;
-    //   the number of such decrements until the emission is c.
-    let mut addrs: Vec<u64> = parsed.iter().map(|p| p.1).collect();
-    addrs.sort();
-    addrs.dedup();
-    let mut finals = Vec::new();
-    for a in addrs {
+    /// Measure the count c of an address:
+    ///   register            -> emits iff c = 0; the count is now n = c + 1
+    ///   [unregister,register] emits iff n <= 1; otherwise unregister once more (n -= 1) and repeat;
+    ///   the number of such decrements until the emission is c.
+    async fn measure(&mut self, a: u64) -> Option<u64> {
         let mut count = 0u64;
-        if !svc_send(handle, erx, true, a).await? {
+        if !self.send(SvcReq::Reg(a)).await? {
             loop {
-                svc_send(handle, erx, false, a).await?;
-                if svc_send(handle, erx, true, a).await? {
+                self.send(SvcReq::Unreg(a)).await?;
+                if self.send(SvcReq::Reg(a)).await? {
                     break;
                 }
-                svc_send(handle, erx, false, a).await?;
+                self.send(SvcReq::Unreg(a)).await?;
                 count += 1;
                 if count > 10_000 {
                     return None;
                 }
             }
         }
-        finals.push(Term::list(vec![Term::nat(a), Term::nat(count)]));
+        Some(count)
     }
+
+    async fn finals(&mut self, mut addrs: Vec<u64>) -> Option<Vec<Term>> {
+        addrs.sort();
+        addrs.dedup();
+        let mut out = Vec::new();
+        for a in addrs {
+            let c = self.measure(a).await?;
+            out.push(Term::list(vec![Term::nat(a), Term::nat(c)]));
+        }
+        Some(out)
+    }
+}
+
+fn run_svc(reqs: &[Term]) -> Option<String> {
+    let mut parsed = Vec::new();
+    for r in reqs {
+        if r.as_atom() == Some("e") {
+            parsed.push(SvcReq::RouteEvent);
+            continue;
+        }
+        let [k, a] = r.as_list()? else { return None };
+        let a = a.as_u64()?;
+        if a >= 90 {
+            return None;
+        }
+        match k.as_atom()? {
+            "r" => parsed.push(SvcReq::Reg(a)),
+            "u" => parsed.push(SvcReq::Unreg(a)),
+            _ => return None,
+        }
+    }
+    Some(RT.with(|rt| rt.block_on(svc_async(parsed))))
+}
+
+async fn svc_async(parsed: Vec<SvcReq>) -> String {
+    let Some(mut svc) = Svc::start() else {
+        return "(svc-no-netlink)".to_string();
+    };
+    let r = svc_body(&mut svc, parsed).await;
+    svc.task.abort();
+    r.unwrap_or_else(|| "(svc-timeout)".to_string())
+}
+
+async fn svc_body(svc: &mut Svc, parsed: Vec<SvcReq>) -> Option<String> {
+    let mut emits = Vec::new();
+    for r in parsed.iter().copied() {
+        emits.push(Term::boolean(svc.send(r).await?));
+    }
+    let addrs = parsed
+        .iter()
+        .filter_map(|r| match r {
+            SvcReq::Reg(a) | SvcReq::Unreg(a) => Some(*a),
+            SvcReq::RouteEvent => None,
+        })
+        .collect();
+    let finals = svc.finals(addrs).await?;
     Some(Term::tag("svc-trace", vec![Term::tag("emit", emits), Term::tag("final", finals)]).to_string())
+}
+
+/// The TableManager's own tracking requests, in the order sent, through the real service loop.
+async fn feed_async(sent: Vec<(bool, u64)>) -> Term {
+    let Some(mut svc) = Svc::start() else {
+        return Term::atom("feed-no-netlink");
+    };
+    let mut ok = true;
+    for (reg, a) in sent.iter().copied() {
+        if a >= 200 {
+            ok = false;
+            break;
+        }
+        let addr = addr_of(a).unwrap();
+        if reg {
+            svc.handle.register_nexthop(addr);
+        } else {
+            svc.handle.unregister_nexthop(addr);
+        }
+    }
+    // discard the emissions of the fed requests themselves
+    let synced = svc.send(SvcReq::Unreg(98)).await.is_some();
+    let r = if ok && synced { svc.finals(sent.iter().map(|s| s.1).collect()).await } else { None };
+    svc.task.abort();
+    match r {
+        Some(f) => Term::tag("feed", f),
+        None => Term::atom("feed-timeout"),
+    }
 }
 
 #[test]
